@@ -19,6 +19,8 @@ CHECKS = {
          "replays are byte-exact; the cache model mirrors only the documented capacity/interval contract"),
  "C10": ("exploration", "§3 C10", "A hostile peer with a valid credential emits reference-encoded segments with arbitrary types, session ids (incl. other users' established sessions), sequence/ack/window/length/low-entropy fields on both transports, mixed with the unauthenticated corpus, while another user's sessions run. Oracle: the worker process survives (panic/fatal = violation with the first mieru frame as signature) and the victim's stream oracle holds.",
          "one OS process per run makes a crash observable and attributable to a seed; hostile servers against real clients are not simulated"),
+ "C19": ("exploration", "§3 C19", "Counter operation histories (adds in bursts, sleeps from 1 us to 30 days across every roll-up age, loads, windows, dump/restart/load with intact and torn files) against a list-of-increments model under the virtual clock; and whole-system quota runs where a user crosses its allowance and then opens new sessions next to other users: per-user counters equal what the server application read/wrote, over-quota sessions are refused with the quota status and never reach Server.Accept, everyone else is served.",
+         "loose reading of the allowance around the threshold; real temporary file for the dump"),
  "C13": ("exploration", "§3 C13", "Wire-tap invariants evaluated on every datagram of C02/C03-style runs with the independent reference decoder: cumulative ack <= in-order prefix delivered to the acker; retransmissions identical in type/fragment/payload; first transmissions gapless from 0.",
          "refproto (written from docs/protocol.md) is the trusted base; simnet delivery events are ground truth for 'received'"),
  "C14": ("exploration", "§3 C14", "Wire-tap invariants on every datagram/segment of runs sweeping MTU x padding x low-entropy mode x write sizes x fault profiles (retransmissions, acks, control segments): datagram <= sender MTU, documented length limits.",
